@@ -306,6 +306,13 @@ def boolMembers (v : Ty) : List Ty :=
 def verdictLeak (tbl : ClassTable) (T : BoolTable) (v : Ty) : Bool :=
   (boolMembers v).any (leakM tbl T)
 
+/-- Table-level absence of `alwaysTrueWrong`: no class that `_get_type_boolability` calls "always
+true" has a class with falsy instances below it (true of the live tables since /repo c376956, which
+made abstract base classes and protocols boolable). -/
+def noLeakTable (tbl : ClassTable) (T : BoolTable) : Bool :=
+  allBelow T.typeBoolL.length fun c =>
+    !((T.typeBool c).safelyTrue && falsyClasses.any fun d => d == c || sub tbl d c)
+
 /-! the abstract constraint contains no `PredicateProvider` (whose inverse is the null constraint) -/
 mutual
 def AC.noProvider : AC → Bool
